@@ -13,7 +13,7 @@ Inc(x) == SExpr(Asg(x, Bin("+", Id(x), Num(1))))
 CntName(d) == IF d = 1 THEN "i" ELSE IF d = 2 THEN "j" ELSE "k"
 
 (* ---- (a) return at every nesting ---- *)
-CtxKinds == {"ifT", "ifE", "blk", "wh1", "wh2", "for1", "for2"}
+CtxKinds == {"ifT", "ifE", "blk", "wh1", "wh2", "for1", "for2", "forO"}
 Wrap(kind, d, body) ==
   LET x == CntName(d)  hit == IF kind \in {"wh1", "for1"} THEN 1 ELSE 2 IN
   CASE kind = "ifT" -> SIf(Bin("<", Num(1), Num(2)), body, T("else"))
@@ -23,6 +23,10 @@ Wrap(kind, d, body) ==
          SBlock(<< SVar(x, Num(0)),
                    SWhile(Bin("<", Id(x), Num(3)), SBlock(<< Inc(x), SPrint(Id(x)), SIf(Bin("==", Id(x), Num(hit)), body, None), T("w") >>)),
                    T("after-while") >>)
+    [] kind = "forO" ->      \* the loop variable lives outside the function: a return must not run the increment once more
+         SBlock(<< SFor(SExpr(Asg("G", Num(1))), Bin("<=", Id("G"), Num(3)), Asg("G", Bin("+", Id("G"), Num(1))),
+                        SBlock(<< SPrint(Id("G")), SIf(Bin("==", Id("G"), Num(2)), body, None), T("fo") >>)),
+                   T("after-forO") >>)
     [] kind \in {"for1", "for2"} ->
          SBlock(<< SFor(SVar(x, Num(1)), Bin("<=", Id(x), Num(3)), Asg(x, Bin("+", Id(x), Num(1))),
                         SBlock(<< SPrint(Id(x)), SIf(Bin("==", Id(x), Num(hit)), body, None), T("f") >>)),
@@ -35,8 +39,8 @@ RECURSIVE CtxName(_)
 CtxName(ks) == IF ks = <<>> THEN "" ELSE ks[1] \o (IF Len(ks) > 1 THEN ">" ELSE "") \o CtxName(Tail(ks))
 Rets == { <<"retv", SReturn(Bin("+", Id("x"), Num(1)))>>, <<"ret", SReturn(None)>>, <<"none", T("no-return")>> }
 ReturnCases ==
-  { [t |-> << SFun("f", <<"x">>, << T("in"), ApplyCtx(ks, 1, r[2]), T("fell-through"), SReturn(Num(99)) >>),
-              SPrint(Call(Id("f"), <<Num(5)>>)), T("end") >>,
+  { [t |-> << SVar("G", Num(0)), SFun("f", <<"x">>, << T("in"), ApplyCtx(ks, 1, r[2]), T("fell-through"), SReturn(Num(99)) >>),
+              SPrint(Call(Id("f"), <<Num(5)>>)), SPrint(Id("G")), T("end") >>,
      c |-> "return:" \o r[1] \o ":" \o CtxName(ks), key |-> "return:" \o r[1] \o ":" \o CtxName(ks)] : ks \in (Ctxs(CtxDepth) \ {<<>>}), r \in Rets }
 
 (* ---- (b) recursion: fresh activations ---- *)
@@ -84,6 +88,29 @@ ClosureCases ==
          [t |-> << SVar("acc", Num(0)), SFun("add", <<"d">>, <<SExpr(Asg("acc", Bin("+", Id("acc"), Id("d")))), SReturn(Id("acc"))>>),
                    SPrint(Call(Id("add"), <<Num(5)>>)), SExpr(Asg("acc", Num(100))), SPrint(Call(Id("add"), <<Num(1)>>)), SPrint(Id("acc")) >>,
           c |-> "closure:global-capture", key |-> "closure:global-capture"],
+         [t |-> << SFor(SVar("i", Num(0)), Bin("<", Id("i"), Num(3)), Asg("i", Bin("+", Id("i"), Num(1))),
+                        SBlock(<< SVar("x", Bin("*", Id("i"), Num(10))), SFun("g", <<>>, <<SReturn(Id("x"))>>), SPrint(Call(Id("g"), <<>>)) >>)),
+                   SFun("outer", <<"n">>, << SVar("m", Bin("+", Id("n"), Num(100))), SFun("h", <<>>, <<SReturn(Id("m"))>>), SReturn(Call(Id("h"), <<>>)) >>),
+                   SPrint(Call(Id("outer"), <<Num(1)>>)), SPrint(Call(Id("outer"), <<Num(2)>>)) >>,
+          c |-> "closure:redeclared-per-entry-called-by-name", key |-> "closure:redeclared-per-entry-called-by-name"],
+         [t |-> << SFun("mk", <<"s">>, << SVar("n", Id("s")),
+                                         SIf(Bin(">", Id("s"), Num(0)), SBlock(<< SFun("inc", <<>>, <<SExpr(Asg("n", Bin("+", Id("n"), Num(1)))), SReturn(Id("n"))>>), SReturn(Id("inc")) >>), None),
+                                         SWhile(Lit(VBool(TRUE)), SBlock(<< SFun("dec", <<>>, <<SExpr(Asg("n", Bin("-", Id("n"), Num(1)))), SReturn(Id("n"))>>), SReturn(Id("dec")) >>)) >>),
+                   SVar("a", Call(Id("mk"), <<Num(10)>>)), SPrint(Call(Id("a"), <<>>)), SPrint(Call(Id("a"), <<>>)),
+                   SVar("b", Call(Id("mk"), <<Num(99)>>)), SPrint(Call(Id("b"), <<>>)), SPrint(Call(Id("a"), <<>>)),
+                   SVar("c", Call(Id("mk"), <<Un("-", Num(5))>>)), SPrint(Call(Id("c"), <<>>)), SPrint(Call(Id("b"), <<>>)), SPrint(Call(Id("a"), <<>>)) >>,
+          c |-> "closure:inner-function-in-nested-block", key |-> "closure:inner-function-in-nested-block"],
+         [t |-> << SFun("one", <<"a">>, <<SReturn(Bin("*", Id("a"), Num(2)))>>), SFun("two", <<"a", "b">>, <<SReturn(Bin("+", Id("a"), Id("b")))>>), SFun("zero", <<>>, <<SReturn(Num(0))>>),
+                   SFun("apply", <<"fn", "v">>, <<SReturn(Call(Id("fn"), <<Id("v")>>))>>),
+                   SPrint(Call(Id("apply"), <<Id("one"), Num(21)>>)), SPrint(Call(Id("apply"), <<Id("abs"), Un("-", Num(3))>>)),
+                   SPrint(Call(Id("apply"), <<Id("two"), Num(21)>>)), T("unreachable") >>,
+          c |-> "callee:same-site-other-arity", key |-> "callee:same-site-two-then-more-params"],
+         [t |-> << SFun("one", <<"a">>, <<SReturn(Id("a"))>>), SFun("zero", <<>>, <<SReturn(Num(0))>>), SFun("apply", <<"fn", "v">>, <<SReturn(Call(Id("fn"), <<Id("v")>>))>>),
+                   SPrint(Call(Id("apply"), <<Id("one"), Num(1)>>)), SPrint(Call(Id("apply"), <<Id("zero"), Num(1)>>)), T("unreachable") >>,
+          c |-> "callee:same-site-other-arity", key |-> "callee:same-site-then-fewer-params"],
+         [t |-> << SFun("one", <<"a">>, <<SReturn(Id("a"))>>), SFun("apply", <<"fn", "v">>, <<SReturn(Call(Id("fn"), <<Id("v")>>))>>),
+                   SPrint(Call(Id("apply"), <<Id("one"), Num(1)>>)), SPrint(Call(Id("apply"), <<Num(5), Num(1)>>)), T("unreachable") >>,
+          c |-> "callee:same-site-other-arity", key |-> "callee:same-site-then-non-function"],
          [t |-> << SVar("fs", Arr(<<Num(0), Num(0), Num(0)>>)),
                    SFor(SVar("i", Num(0)), Bin("<", Id("i"), Num(3)), Asg("i", Bin("+", Id("i"), Num(1))),
                         SBlock(<< SVar("c", Bin("*", Id("i"), Num(100))),
